@@ -88,7 +88,7 @@ PROPS = {
         "real_vs_stub": ("real: internal/db API incl. GraphQL mutations, collection API, index/schema DDL, import, merge; badger in-memory under SimStore; "
                          "stub: storage errors injected at the corekv seam (read/iterator/write/disk-full/commit error/commit conflict), disk = committed-batch log; not run: net, HTTP/CLI, document ACP"),
         "assumptions": ASSUME_COMMON + ["a failing Commit never reaches the base store (a store that reports failure although it committed is not injected)"],
-        "probes": ["fault_read_error", "fault_iterator_error", "fault_write_error", "fault_disk_full", "fault_commit_error", "fault_commit_conflict", "success_despite_fault", "fault_free_call_failed"],
+        "probes": ["txn_operations_failed_logically", "fault_read_error", "fault_iterator_error", "fault_write_error", "fault_disk_full", "fault_commit_error", "fault_commit_conflict", "success_despite_fault", "fault_free_call_failed"],
         "quick": {"count": 24, "budget_s": 80, "workers": 16},
         "thorough": {"count": 100000, "budget_s": 1700, "workers": 16},
         "text": "Per call, the site enumeration is complete in the thorough tier (every distinct storage operation of the fault-free execution fails once); over pre-states and call arguments it is seeded sampling. Oracle: error => no new durable batch, unchanged logical dump (documents, commits, heads, index-backed reads, descriptions, introspection), no update notification, and the retry succeeds; success => state and notifications equal the fault-free twin's.",
@@ -216,7 +216,7 @@ PROPS = {
                  "distinct_nontrivial = distinct (request kind, identity) pairs for which both sides answered and agreed"),
         "real_vs_stub": "real: local document ACP engine (acp_core/zanzi, in memory), permissioned fetcher, explicit permission checks on update/delete, commits DAG scan, planner; badger in-memory under SimStore; twin: second real node given only the public operations; no network (the E2 access-filter probe fetch_refused_by_access_filter is separate)",
         "assumptions": ASSUME_COMMON + ["documents created without an identity are public; signing is off so that public commits have identical cids on both nodes"],
-        "probes": ["requests_compared", "grants", "revokes", "attacks", "checkpoints"],
+        "probes": ["subscription_messages_compared", "requests_compared", "grants", "revokes", "attacks", "checkpoints"],
         "quick": {"count": 2, "budget_s": 80, "workers": 16},
         "thorough": {"count": 100000, "budget_s": 1700, "workers": 16},
         "text": "For stranger and anonymous requesters every request must return on the real node exactly what it returns on the database that never contained the private documents (rows as multisets, ordered requests as sequences, commits verbatim). For the reader, whose visibility changes with grants and revocations, each request must equal the owner's result with the currently hidden documents excluded by an explicit _docID filter. Write attempts without permission must leave every private document unchanged.",
